@@ -309,6 +309,12 @@ class SimFS:
         f = self.fault
         if f is not None and f.get("op") == k and f["kind"] == "crash_before":
             self._crash("crash_before")
+        if f is not None and f.get("op") == k and f["kind"] == "interrupt_op":
+            # a signal (Ctrl-C) delivered just before this operation: KeyboardInterrupt is raised in the
+            # code under test at this point, its handlers and `finally` blocks run, the process goes on or exits
+            self._fire("interrupt_op")
+            self.fault = None
+            raise SimInterrupt("simulated interrupt before fs operation %d (%s)" % (k, kind))
         return k
 
     def _end_op(self, k, kind, path, info=None):
